@@ -146,6 +146,30 @@ theorem dnfSubset_iff (n : Nat) (A B : DNF) (hA : DWF n A) (hB : DWF n B) :
       rw [h] at this
       exact this
 
+theorem dnfSubsetF_iff (n : Nat) (A B : DNF) (hA : DWF n A) (hB : DWF n B) :
+    dnfSubsetF n A B = true ↔ dnfSem A ⊆ dnfSem B := by
+  unfold dnfSubsetF
+  simp only [List.all_eq_true, Bool.or_eq_true, List.any_eq_true]
+  constructor
+  · rintro h x ⟨P, hP, hx⟩
+    rcases h P hP with ⟨Q, hQ, hs⟩ | hs
+    · exact ⟨Q, hQ, (subsetB_iff n P Q (hA P hP) (hB Q hQ)).mp hs hx⟩
+    · have hP1 : DWF n [P] := fun R hR => by rw [List.mem_singleton] at hR; rw [hR]; exact hA P hP
+      exact (dnfSubset_iff n [P] B hP1 hB).mp hs ⟨P, List.mem_singleton.mpr rfl, hx⟩
+  · intro h P hP
+    right
+    have hP1 : DWF n [P] := fun R hR => by rw [List.mem_singleton] at hR; rw [hR]; exact hA P hP
+    rw [dnfSubset_iff n [P] B hP1 hB]
+    rintro x ⟨R, hR, hx⟩
+    rw [List.mem_singleton] at hR; subst hR
+    exact h ⟨R, hP, hx⟩
+
+theorem dnfEquivF_iff (n : Nat) (A B : DNF) (hA : DWF n A) (hB : DWF n B) :
+    dnfEquivF n A B = true ↔ dnfSem A = dnfSem B := by
+  unfold dnfEquivF
+  rw [Bool.and_eq_true, dnfSubsetF_iff n A B hA hB, dnfSubsetF_iff n B A hB hA]
+  exact ⟨fun ⟨a, b⟩ => Set.Subset.antisymm a b, fun h => ⟨h ▸ subset_rfl, h ▸ subset_rfl⟩⟩
+
 /-- **equality of unions is decided exactly** -/
 theorem dnfEquiv_iff (n : Nat) (A B : DNF) (hA : DWF n A) (hB : DWF n B) :
     dnfEquiv n A B = true ↔ dnfSem A = dnfSem B := by
